@@ -77,6 +77,26 @@ def generate(v, name, mode, pool_size, depth, clients=('A', 'B'), actors=('A',),
     return out
 
 
+def realisable(sc):
+    """Can the lock-step replay realise this history in real time?  The idle-in-transaction timeout is one setting for
+    every client of the pooler: while the harness waits for client X's timeout (or for a statement that runs into the
+    statement timeout), another client that the model has inside a transaction comes up to its own timeout as well, and
+    which of the two fires first depends on the machine.  The untimed model does not cover that; such histories are left
+    out (a handful: only families in which two clients may be inside transactions at once have them)."""
+    steps = sc['steps']
+    if not any(s['op'] == 'idle_tx_timeout' for s in steps):
+        return True
+    prev = None
+    for s in steps:
+        if s['op'] == 'state':
+            prev = s
+            continue
+        long_wait = s['op'] == 'idle_tx_timeout' or (s['op'] in ('send', 'send_vanish') and s.get('k') == 'slow')
+        if long_wait and prev is not None and any(pcv == 'intx' and c2 != s.get('c') for c2, pcv in prev['pcs'].items()):
+            return False
+    return True
+
+
 def features(sc):
     """Abstract features of a scenario used for selection and for signatures."""
     ops = [(s['op'], s.get('c'), s.get('k')) for s in sc['steps'] if s['op'] != 'state']
@@ -273,6 +293,9 @@ def check(prop, tier, seed):
         scenarios += generate(v, 'sess1', 'session', 1, depth - 1)
     if prop in ('C04', 'C01') or tier == 'thorough':
         scenarios += generate(v, 'tx2', 'transaction', 2, depth - 1)
+    n_gen = len(scenarios)
+    scenarios = [sc for sc in scenarios if realisable(sc)]
+    v.extra['histories_left_out_as_timing_dependent'] = n_gen - len(scenarios)
     want = {
         'C01': {'handoff', 'A:local', 'A:begin', 'A:copyin', 'A:copyin2', 'A:fail', 'A:slow', 'early_return', 'exit_in_tx', 'idle_tx_timeout',
                 'vanish:slow', 'vanish:begin', 'vanish:stmt', 'vanish:big'},
@@ -291,6 +314,7 @@ def check(prop, tier, seed):
             witnesses = json.load(f)
     except FileNotFoundError:
         v.tool_error('spec/witnesses_poolcore.json missing (run tools/gen_witnesses.py)')
+    witnesses = [wsc for wsc in witnesses if realisable(wsc)]
     bydev = {}
     for wsc in witnesses:
         for d in wsc['witness_of']:
